@@ -260,6 +260,15 @@ def run_property(prop, tier="quick", repo="/repo", seed=0, update_baseline=False
                 lines.append("UNDECIDED property=%s obligation=%s reason=precondition-unreachable (vacuous contract)"
                              % (prop, k))
                 undecided += 1
+    for u in units:
+        c = u.contract
+        if c is not None and not c.trusted and (c.ensures_ or getattr(c, 'traces_', None)) \
+                and not getattr(c, 'never_returns', False):
+            k = c.key + "/cover.return"
+            if not covers.get(k, False) and covers.get(c.key + "/cover.pre", False):
+                lines.append("UNDECIDED property=%s obligation=%s reason=no-path-returns-normally "
+                             "(postconditions hold vacuously)" % (prop, k))
+                undecided += 1
     if baseline is not None and not only:
         missing = [b for b in baseline if b not in status]
         for b in missing[:20]:
